@@ -1,3 +1,6 @@
 #!/bin/bash
-# run the pinned suite in /repo (or $1) with the guard off; print the summary line
-cd "${1:-/repo}" && env -u NPSTRUCTURES_VERIF PYTHONDONTWRITEBYTECODE=1 /venv/bin/python -m pytest -q -p no:cacheprovider --timeout=900 --continue-on-collection-errors 2>&1 | tail -4
+# run the pinned suite in /repo (or $1) with the guard off; exit 0 only if exactly the baseline result (140 passed, 1 known failure)
+cd "${1:-/repo}" || exit 2
+out=$(env -u NPSTRUCTURES_VERIF PYTHONDONTWRITEBYTECODE=1 /venv/bin/python -m pytest -q -p no:cacheprovider --timeout=900 --continue-on-collection-errors 2>&1 | tail -3)
+echo "$out" | tail -2
+echo "$out" | grep -q "1 failed, 140 passed\|141 passed" || { echo "SUITE NOT AT BASELINE"; exit 1; }
